@@ -171,7 +171,7 @@ theorem abs_upd (s s' : St) (hf : Frame s s') (k : Nat) (v : KSt) (n : Nat)
 
 theorem key_newRec (s : St) (k g k' : Nat) :
     (newRec s k g).key k' =
-      if k' = k then some { id := s.nrec, gen := g, data := s.ctors k + 1, hasFn := !s.nilNext.contains k }
+      if k' = k then some { id := s.nrec, gen := g, data := s.ctors k + 1, hasFn := !s.nilNext.contains k, born := s.epoch }
       else s.key k' := by
   simp [St.key, newRec, look_put]
 
@@ -184,7 +184,7 @@ theorem frame_newRec (s : St) (k g : Nat) : Frame s (newRec s k g) := ⟨rfl, rf
 
 theorem key_createKey (s : St) (k k' : Nat) :
     (createKey s k).key k' =
-      if k' = k then some { id := s.nrec, gen := s.gens.length, data := s.ctors k + 1, hasFn := !s.nilNext.contains k }
+      if k' = k then some { id := s.nrec, gen := s.gens.length, data := s.ctors k + 1, hasFn := !s.nilNext.contains k, born := s.epoch }
       else s.key k' := by
   simp only [createKey, key_newRec]; rfl
 
